@@ -107,3 +107,98 @@ def _occurs(x, t):
         if z3.is_app(e):
             stack.extend(e.children())
     return False
+
+
+# ---- replay of refuted function obligations on the real checker (harness commands esubst / ssubst / inst) ------------------------
+def _rn(d, table):
+    if isinstance(d, bool):
+        return d
+    if isinstance(d, int):
+        if 0 <= d <= 255 and d not in table.values():
+            table.setdefault(d, d)
+            return d
+        if d not in table:
+            n = 200
+            while n in table.values():
+                n += 1
+            table[d] = n
+        return table[d]
+    if isinstance(d, tuple):
+        return (d[0],) + tuple(_rn(x, table) for x in d[1:])
+    return d
+
+
+def _ml(d):
+    out = []
+    while d[0] == 'lcons':
+        out.append(d[1])
+        d = d[2]
+    return out
+
+
+def _il(d):
+    out = []
+    while d[0] == 'icons':
+        out.append(d[1])
+        d = d[2]
+    return out
+
+
+def rs_fn_replayer(name, model, root):
+    from vc.rsreal import RustReal, data_to_tokens, parse_debug
+    from vc import sm, norm, replay as rp
+    from vc.run import term_to_data
+    fn = name.split('/')[2]
+    table = {}
+    rr = RustReal(root)
+    try:
+        if fn in ('apply_esubst', 'apply_ssubst'):
+            kind = 'e' if fn == 'apply_esubst' else 's'
+            p, x, q = _rn(model['pattern'], table), _rn(model['evar_id' if kind == 'e' else 'svar_id'], table), _rn(model['plug'], table)
+            cmd = f"{'esubst' if kind == 'e' else 'ssubst'} {data_to_tokens(p)} {x} {data_to_tokens(q)}"
+            out = rr.run([cmd])[0]
+            pt, qt = rp.data_to_term(p, 'mpat'), rp.data_to_term(q, 'mpat')
+            cap = norm.ceval((sm.doc_mcap_e if kind == 'e' else sm.doc_mcap_s)(pt, x, qt))
+            exp = term_to_data(norm.ceval((msubst_e_rs if kind == 'e' else msubst_s_rs)(pt, x, qt)))
+            rec = {'command': cmd, 'real': list(out), 'spec_capture': str(cap), 'spec_result': repr(exp)}
+            if out[0] == 'PANIC':
+                bad = not z3.is_true(cap)
+            else:
+                bad = z3.is_true(cap) or parse_debug(out[1]) != exp
+            if bad:
+                rec['failed_clause'] = 'real outcome differs from the documented substitution'
+            return bad, rec
+        if fn == 'instantiate_internal':
+            p = _rn(model['p'], table)
+            ids = [_rn(i, table) for i in _il(model['vars'])]
+            plugs = [_rn(x, table) for x in _ml(model['plugs'])]
+            k = min(len(ids), len(plugs))
+            if len(ids) != len(plugs):
+                return False, {'note': 'model has ids/plugs of different lengths (harness takes equal lengths)'}
+            cmd = f"inst {data_to_tokens(p)} {k} {' '.join(map(str, ids))} {' '.join(data_to_tokens(x) for x in plugs)}"
+            out = rr.run([cmd])[0]
+            pt = rp.data_to_term(p, 'mpat')
+            idt = idl(*ids)
+            plt = MLs.mk('lnil')
+            for x in reversed(plugs):
+                plt = MLs.mk('lcons', rp.data_to_term(x, 'mpat'), plt)
+            okv = norm.ceval(sm.doc_inst_ok(pt, idt, plt))
+            hit = norm.ceval(mv_hit(pt, idt))
+            exp = term_to_data(norm.ceval(minst_rs(pt, mzip(idt, plt))))
+            rec = {'command': cmd, 'real': list(out), 'spec_ok': str(okv), 'spec_hit': str(hit), 'spec_result': repr(exp)}
+            if out[0] == 'PANIC':
+                bad = z3.is_true(okv)
+            else:
+                got = parse_debug(out[1])
+                if not z3.is_true(okv):
+                    bad = True
+                elif got is None:
+                    bad = z3.is_true(hit)
+                else:
+                    bad = (not z3.is_true(hit)) or got[1] != exp
+            if bad:
+                rec['failed_clause'] = 'real outcome differs from the documented instantiation'
+            return bad, rec
+    finally:
+        rr.close()
+    return False, {'note': 'no replayer'}
